@@ -884,6 +884,9 @@ class Parser:
 
 
 def parse(chunk: str) -> Chunk:
-    ast: Chunk = Parser(chunk).parse_chunk()
+    parser: Parser = Parser(chunk)
+    ast: Chunk = parser.parse_chunk()
+    # the whole text has to be consumed
+    parser._assert(TokenType.EOF)  # pylint: disable=protected-access
     ast.parent(None)
     return ast
